@@ -16,10 +16,19 @@ Model: Model/Flip.lean.  `R` = removed face (`|R| = D+2-k`), `I` = inserted face
        (facets not inside `U` keep their multiplicity), `flip_facet_inner_counts` (+ corollaries
        `flip_facet_inner_II`, `_RR`, `_RI`).
  * §6  non-vacuity: the 2-D edge flip and the 3-D 2→3 / 3→2 flips, by `decide`.
+ * §7  (end of file) consistency with Model/Cavity.lean and Model/StarRemoval.lean: the forward
+       k = 1 move is the cavity insertion into one cell (`flip_k1_is_cavity`), the inverse k = 1 move
+       is the star removal with one fill cell (`flip_k1_inverse_is_starFill`), every move removes and
+       inserts regions with the same boundary (`flip_general_is_cavity_like`), round trips.
 
-Helper lemmas live in Lemmas/FlipAux.lean.  Everything here is core-only.
+Helper lemmas live in Lemmas/FlipAux.lean (§7: Lemmas/ConsistAux.lean; §7 also uses the cavity
+section of Props/C02.lean and the star-removal section of Props/C06.lean).  Everything here is
+core-only.
 -/
 import DelaunayModel.Lemmas.FlipAux
+import DelaunayModel.Lemmas.ConsistAux
+import DelaunayModel.Props.C02
+import DelaunayModel.Props.C06
 namespace DM.C07
 
 open DM
@@ -443,5 +452,325 @@ example : flipGuard 4 exCells4 [1,2,3] [5,6,7] = true := by decide
 example : flipGuardFull 4 exCells4 [1,2,3] [5,6,7] = false := by decide
 example : [5,6,7,8,9] ∈ flipCells exCells4 [1,2,3] [5,6,7] ∧ [5,6,7,8,9] ∉ flipNew [1,2,3] [5,6,7] := by decide
 example : flipGuardFull 4 [[1,2,3,5,6], [1,2,3,5,7], [1,2,3,6,7]] [1,2,3] [5,6,7] = true := by decide
+
+end DM.C07
+
+/-! ## §7 The three cell-set models agree where they overlap
+
+Model/Flip.lean (bistellar moves), Model/Cavity.lean (cavity insertion) and Model/StarRemoval.lean
+(star removal) describe the same edits of the abstract complex from three sides.  All theorems hold
+for every cell list (no bound on size or dimension).  Helper lemmas: Lemmas/ConsistAux.lean.
+
+ * §7.1 `flip_k1_is_cavity` (+ `flip_k1_old_cell`, list forms `flip_k1_eq_cavityInsertWith`,
+        `flip_k1_eq_cavityInsert_of_sorted`), `flip_k1_cavityStep_ok` (the executable cavity check
+        accepts every forward k = 1 move with a fresh vertex)
+ * §7.2 `flip_k1_inverse_is_starFill` (+ list form `flip_k1_inverse_eq_starFill`),
+        `flip_k1_inverse_starRemoval_ok` (the executable star-removal check accepts it),
+        `flip_k1_inverse_needs_star` (the star hypothesis cannot be dropped)
+ * §7.3 `flip_general_is_cavity_like`
+ * §7.4 `k1_roundtrip_via_models`, `flip_k1_roundtrip_via_models`
+ * §7.5 non-vacuity by `decide`
+-/
+namespace DM.C07
+open DM
+
+/-! ### §7.1 forward k = 1 move = cavity insertion into one cell -/
+
+/-- the removed region of a forward k = 1 move is the single cell `sortNat R` (the removed face as a
+cell, `= flipUnion R [w]` without `w`), and it is a cell of the complex -/
+theorem flip_k1_old_cell {D : Nat} {cells : List (List Nat)} {R : List Nat} {w : Nat}
+    (hg : flipGuard D cells R [w] = true) :
+    flipOld R [w] = [sortNat R] ∧ sortNat R = without (flipUnion R [w]) w ∧ sortNat R ∈ cells := by
+  have g := (flipGuard_iff D cells R [w]).1 hg
+  refine ⟨flipOld_k1 g.nodup, (flipUnion_without_inserted g.nodup).symm, ?_⟩
+  apply g.old_mem
+  rw [flipOld_k1 g.nodup]
+  exact List.mem_singleton.2 rfl
+
+/-- list form: the forward k = 1 move IS the cavity insertion that removes the single cell
+`sortNat R` and cones `w` over its facets (listed in the order of `R`) -/
+theorem flip_k1_eq_cavityInsertWith {D : Nat} {cells : List (List Nat)} {R : List Nat} {w : Nat}
+    (hg : flipGuard D cells R [w] = true) :
+    flipCells cells R [w] =
+      cavityInsertWith cells [sortNat R] (R.map (without (sortNat R))) w :=
+  flipCells_k1_eq cells ((flipGuard_iff D cells R [w]).1 hg).nodup
+
+/-- list form for a sorted removed face: literally the interior cavity insertion -/
+theorem flip_k1_eq_cavityInsert_of_sorted {D : Nat} {cells : List (List Nat)} {R : List Nat}
+    {w : Nat} (hg : flipGuard D cells R [w] = true) (hs : R.Pairwise (· ≤ ·)) :
+    flipCells cells R [w] = cavityInsert cells [R] w :=
+  flipCells_k1_eq_cavityInsert_of_sorted cells ((flipGuard_iff D cells R [w]).1 hg).nodup hs
+
+/-- **a forward k = 1 move is the cavity insertion of `w` with conflict region the one cell
+`sortNat R`**: the cavity boundary of a single cell is all its `D+1` facets, and coning `w` over
+each of them gives exactly `flipNew R [w]` -/
+theorem flip_k1_is_cavity {D : Nat} {cells : List (List Nat)} {R : List Nat} {w : Nat}
+    (hg : flipGuard D cells R [w] = true) :
+    ∀ x, x ∈ flipCells cells R [w] ↔ x ∈ cavityInsert cells [sortNat R] w := by
+  have g := (flipGuard_iff D cells R [w]).1 hg
+  have hR : R.Nodup := (List.nodup_append.1 g.nodup).1
+  intro x
+  rw [flipCells_k1_eq cells g.nodup]
+  show _ ↔ x ∈ cavityInsertWith cells [sortNat R] (cavityBoundary [sortNat R]) w
+  rw [C02.cavity_mem, C02.cavity_mem]
+  constructor
+  · rintro (h | ⟨f, hf, rfl⟩)
+    · exact Or.inl h
+    · obtain ⟨r, hr, rfl⟩ := List.mem_map.1 hf
+      exact Or.inr ⟨_, (mem_cavityBoundary_single (sortNat_nodup hR)).2
+        ⟨r, mem_sortNat.2 hr, rfl⟩, rfl⟩
+  · rintro (h | ⟨f, hf, rfl⟩)
+    · exact Or.inl h
+    · obtain ⟨r, hr, rfl⟩ := (mem_cavityBoundary_single (sortNat_nodup hR)).1 hf
+      exact Or.inr ⟨_, List.mem_map.2 ⟨r, mem_sortNat.1 hr, rfl⟩, rfl⟩
+
+/-- **the executable cavity check accepts every forward k = 1 move** that inserts a vertex used by
+no cell before (the guard alone does not say that `w` is new, cf. `flip_k1_adds_vertex`) -/
+theorem flip_k1_cavityStep_ok {D : Nat} {cells : List (List Nat)} {R : List Nat} {w : Nat}
+    (hnd : cells.Nodup) (hg : flipGuard D cells R [w] = true) (hfresh : ∀ c ∈ cells, w ∉ c) :
+    cavityStepProblem cells (flipCells cells R [w]) w = none := by
+  have g := (flipGuard_iff D cells R [w]).1 hg
+  have hRI := List.nodup_append.1 g.nodup
+  have hR : R.Nodup := hRI.1
+  have hc : (sortNat R).Nodup := sortNat_nodup hR
+  rw [flipCells_k1_eq cells g.nodup]
+  have h1 : [sortNat R].Nodup := by simp
+  refine C02.cavityStepProblem_complete hnd h1 ?_ hfresh ?_ ?_ ?_ ?_ ?_ ?_
+  · intro c hc'
+    rw [List.mem_singleton.1 hc']
+    exact (flip_k1_old_cell hg).2.2
+  · exact map_without_nodup hR (fun x hx => mem_sortNat.2 hx)
+  · intro e
+    exact g.rne (List.map_eq_nil_iff.1 e)
+  · intro f hf
+    obtain ⟨r, _, rfl⟩ := List.mem_map.1 hf
+    exact without_lt_sorted (sortNat_lt_sorted hR) r
+  · intro f hf hw
+    obtain ⟨r, _, rfl⟩ := List.mem_map.1 hf
+    have hwR : w ∈ R := mem_sortNat.1 (mem_without.1 hw).1
+    exact hRI.2.2 w hwR w (List.mem_singleton.2 rfl) rfl
+  · intro f hf
+    obtain ⟨x, hx, rfl⟩ := (mem_cavityBoundary_single hc).1 hf
+    exact Or.inl (List.mem_map.2 ⟨x, mem_sortNat.1 hx, rfl⟩)
+  · intro f hf
+    obtain ⟨r, hr, rfl⟩ := List.mem_map.1 hf
+    exact Or.inl ((mem_cavityBoundary_single hc).2 ⟨r, mem_sortNat.2 hr, rfl⟩)
+
+/-! ### §7.2 inverse k = 1 move = star removal with one fill cell -/
+
+/-- list form: if the star of `r` is exactly `flipOld [r] I`, the inverse k = 1 move IS the star
+removal of `r` with the single fill cell `sortNat I` -/
+theorem flip_k1_inverse_eq_starFill {D : Nat} {cells : List (List Nat)} {I : List Nat} {r : Nat}
+    (hg : flipGuard D cells [r] I = true) (hstar : ∀ c ∈ cells, r ∈ c → c ∈ flipOld [r] I) :
+    flipCells cells [r] I = starFill cells r [sortNat I] := by
+  have g := (flipGuard_iff D cells [r] I).1 hg
+  unfold flipCells starFill
+  rw [flipNew_k1_inverse g.nodup]
+  congr 1
+  apply List.filter_congr
+  intro c hc
+  by_cases hr : r ∈ c
+  · have := hstar c hc hr
+    simp [hr, this]
+  · have : c ∉ flipOld [r] I := fun h => hr (flipOld_k1_inverse_contains g.nodup h)
+    simp [hr, this]
+
+/-- **an inverse k = 1 move is the star removal of `r` with fill `[sortNat I]`**, provided the star
+of `r` is exactly the `D+1` old cells (what the implementation checks through the size of the vertex
+star) -/
+theorem flip_k1_inverse_is_starFill {D : Nat} {cells : List (List Nat)} {I : List Nat} {r : Nat}
+    (hg : flipGuard D cells [r] I = true) (hstar : ∀ c ∈ cells, r ∈ c → c ∈ flipOld [r] I) :
+    ∀ x, x ∈ flipCells cells [r] I ↔ x ∈ starFill cells r [sortNat I] := by
+  intro x
+  rw [flip_k1_inverse_eq_starFill hg hstar]
+
+/-- the new cell of the inverse k = 1 move is `sortNat I`, it does not contain `r`, and every old
+cell does -/
+theorem flip_k1_inverse_new_cell {D : Nat} {cells : List (List Nat)} {I : List Nat} {r : Nat}
+    (hg : flipGuard D cells [r] I = true) :
+    flipNew [r] I = [sortNat I] ∧ r ∉ sortNat I ∧ ∀ c ∈ flipOld [r] I, r ∈ c := by
+  have g := (flipGuard_iff D cells [r] I).1 hg
+  refine ⟨flipNew_k1_inverse g.nodup, ?_, fun c hc => flipOld_k1_inverse_contains g.nodup hc⟩
+  intro h
+  exact (List.nodup_append.1 g.nodup).2.2 r (List.mem_singleton.2 rfl) r (mem_sortNat.1 h) rfl
+
+/-- **the executable star-removal check accepts every inverse k = 1 move** on a duplicate-free
+complex of sorted cells whose removed vertex has exactly the old cells as star (`D ≥ 1`, i.e. the
+inserted face has at least two vertices, so that every link vertex is seen in a star cell) -/
+theorem flip_k1_inverse_starRemoval_ok {D : Nat} {cells : List (List Nat)} {I : List Nat} {r : Nat}
+    (hnd : cells.Nodup) (hs : ∀ c ∈ cells, c.Pairwise (· < ·))
+    (hg : flipGuard D cells [r] I = true) (hI : 2 ≤ I.length)
+    (hstar : ∀ c ∈ cells, r ∈ c → c ∈ flipOld [r] I) :
+    starRemovalProblem cells (flipCells cells [r] I) r = none := by
+  have g := (flipGuard_iff D cells [r] I).1 hg
+  have hRI := List.nodup_append.1 g.nodup
+  have hIn : I.Nodup := hRI.2.1
+  have hc : (sortNat I).Nodup := sortNat_nodup hIn
+  have hUr := flipUnion_without_removed_vertex g.nodup
+  have hrU : r ∈ flipUnion [r] I := mem_flipUnion.2 (Or.inl (List.mem_singleton.2 rfl))
+  -- the old cell opposite `w ∈ I` is a star cell of `r`
+  have hold : ∀ w ∈ I, without (flipUnion [r] I) w ∈ cells ∧ r ∈ without (flipUnion [r] I) w := by
+    intro w hw
+    have hm : without (flipUnion [r] I) w ∈ flipOld [r] I := mem_flipOld.2 ⟨w, hw, rfl⟩
+    exact ⟨g.old_mem _ hm, flipOld_k1_inverse_contains g.nodup hm⟩
+  have hfill : ∀ c ∈ [sortNat I], c = sortNat I := fun c hc' => List.mem_singleton.1 hc'
+  rw [flip_k1_inverse_eq_starFill hg hstar]
+  have h1 : [sortNat I].Nodup := by simp
+  refine C06.starRemovalProblem_complete_interior hnd hs ?_ ?_ ?_ h1 ?_ ?_ ?_
+  · obtain ⟨w, hw, _⟩ := exists_mem_ne_of_two_le hIn hI r
+    exact List.ne_nil_of_mem (mem_starOf.2 (hold w hw))
+  · intro c hc'
+    rw [hfill c hc']
+    exact (flip_k1_inverse_new_cell hg).2.1
+  · intro c hc'
+    rw [hfill c hc']
+    apply g.new_not_mem
+    rw [flipNew_k1_inverse g.nodup]
+    exact List.mem_singleton.2 rfl
+  · intro c hc' u hu
+    rw [hfill c hc'] at hu
+    have huI : u ∈ I := mem_sortNat.1 hu
+    obtain ⟨w, hw, hwu⟩ := exists_mem_ne_of_two_le hIn hI u
+    exact ⟨_, mem_starOf.2 (hold w hw),
+      mem_without.2 ⟨mem_flipUnion.2 (Or.inr huI), fun e => hwu e.symm⟩⟩
+  · intro f hf
+    rw [cellFacets_single] at hf
+    obtain ⟨x, hx, rfl⟩ := List.mem_map.1 hf
+    exact Or.inl (facetCount_single_facet hc hx)
+  · intro f
+    rw [mem_cavityBoundary_single hc, mem_linkOf]
+    constructor
+    · rintro ⟨x, hx, rfl⟩
+      refine ⟨_, (hold x (mem_sortNat.1 hx)).1, (hold x (mem_sortNat.1 hx)).2, ?_⟩
+      rw [without_comm, hUr]
+    · rintro ⟨c, hc', hrc, rfl⟩
+      obtain ⟨w, hw, rfl⟩ := mem_flipOld.1 (hstar c hc' hrc)
+      refine ⟨w, mem_sortNat.2 hw, ?_⟩
+      rw [without_comm _ w r, hUr]
+
+/-- **the star hypothesis is necessary**: `3` has a fourth cell `[3,4,5]` outside the three old
+cells; the guard holds, the move leaves `[3,4,5]` in place, the star removal drops it -/
+theorem flip_k1_inverse_needs_star :
+    flipGuard 2 [[0, 1, 3], [0, 2, 3], [1, 2, 3], [3, 4, 5]] [3] [0, 1, 2] = true ∧
+    [3, 4, 5] ∈ flipCells [[0, 1, 3], [0, 2, 3], [1, 2, 3], [3, 4, 5]] [3] [0, 1, 2] ∧
+    [3, 4, 5] ∉ starFill [[0, 1, 3], [0, 2, 3], [1, 2, 3], [3, 4, 5]] 3 [sortNat [0, 1, 2]] ∧
+    ¬ (∀ x, x ∈ flipCells [[0, 1, 3], [0, 2, 3], [1, 2, 3], [3, 4, 5]] [3] [0, 1, 2] ↔
+        x ∈ starFill [[0, 1, 3], [0, 2, 3], [1, 2, 3], [3, 4, 5]] 3 [sortNat [0, 1, 2]]) := by
+  refine ⟨by decide, by decide, by decide, fun h => ?_⟩
+  exact absurd ((h [3, 4, 5]).1 (by decide)) (by decide)
+
+/-! ### §7.3 every move: remove a region, add a region with the same boundary -/
+
+/-- **every bistellar move is a "remove a region, add cells" step with the facet bookkeeping of the
+cavity model**: the result is the kept cells plus `flipNew`, and the removed region `flipOld R I`
+and the inserted region `flipNew R I` have the same boundary facets — the facets `U \ {a, b}` with
+`a ∈ R`, `b ∈ I` (the two halves of the boundary of the `(D+1)`-simplex on `U` share their common
+boundary).  Together with `flip_facet_balance` this is why a move keeps every facet degree outside
+the two regions and on their common boundary (`flip_facet_inner_RI`). -/
+theorem flip_general_is_cavity_like {D : Nat} {cells : List (List Nat)} {R I : List Nat}
+    (hg : flipGuard D cells R I = true) :
+    flipCells cells R I = cells.filter (fun c => !(flipOld R I).contains c) ++ flipNew R I ∧
+    (∀ f, f ∈ cavityBoundary (flipOld R I) ↔ f ∈ cavityBoundary (flipNew R I)) ∧
+    (∀ f, f ∈ cavityBoundary (flipOld R I) ↔
+      ∃ a ∈ R, ∃ b ∈ I, f = without (without (flipUnion R I) a) b) := by
+  have g := (flipGuard_iff D cells R I).1 hg
+  exact ⟨rfl, flip_region_boundary_iff g.nodup, fun f => mem_cavityBoundary_flipOld g.nodup⟩
+
+/-- in the counting form of `cavity_facet_degree`: a facet on the common boundary has degree 1 in
+both regions, every other facet has the same "is a boundary facet" status in both -/
+theorem flip_region_boundary_count {D : Nat} {cells : List (List Nat)} {R I : List Nat}
+    (hg : flipGuard D cells R I = true) (f : List Nat) :
+    facetCount (flipOld R I) f = 1 ↔ facetCount (flipNew R I) f = 1 := by
+  rw [← mem_cavityBoundary, ← mem_cavityBoundary]
+  exact (flip_general_is_cavity_like hg).2.1 f
+
+/-! ### §7.4 round trips -/
+
+/-- inserting `w` into the single cell `c` by the cavity model and removing it again by the
+star-removal model with `c` as fill restores the cell set (instance of `starFill_cavity_inverse`) -/
+theorem k1_roundtrip_via_models {cells : List (List Nat)} {c : List Nat} {w : Nat} (hc : c ∈ cells)
+    (hfresh : ∀ c' ∈ cells, w ∉ c') :
+    ∀ x, x ∈ starFill (cavityInsert cells [c] w) w [c] ↔ x ∈ cells :=
+  C06.starFill_cavity_inverse (fun _ hc' => (List.mem_singleton.1 hc') ▸ hc) hfresh
+
+/-- the k = 1 move followed by its inverse, in the flip model, is the cavity insertion followed by
+the star removal, in the other two models (cell by cell) — and both give back the original cells -/
+theorem flip_k1_roundtrip_via_models {D : Nat} {cells : List (List Nat)} {R : List Nat} {w : Nat}
+    (hg : flipGuard D cells R [w] = true) (hfresh : ∀ c ∈ cells, w ∉ c) :
+    (∀ x, x ∈ flipCells (flipCells cells R [w]) [w] R ↔
+      x ∈ starFill (cavityInsert cells [sortNat R] w) w [sortNat R]) ∧
+    (∀ x, x ∈ starFill (cavityInsert cells [sortNat R] w) w [sortNat R] ↔ x ∈ cells) := by
+  have hstar : ∀ c ∈ flipCells cells R [w], w ∈ c → c ∈ flipOld [w] R := by
+    intro c hc hw
+    rw [flipOld_swap]
+    rcases mem_flipCells.1 hc with h | h
+    · exact absurd hw (hfresh c h.1)
+    · exact h
+  refine ⟨fun x => ?_, k1_roundtrip_via_models (flip_k1_old_cell hg).2.2 hfresh⟩
+  rw [flip_k1_inverse_is_starFill (flip_inverse_guard hg) hstar x, C06.starFill_mem,
+    C06.starFill_mem, flip_k1_is_cavity hg x]
+
+/-! ### §7.5 non-vacuity -/
+
+/-- 2-D, k = 1: `9` inserted into `[0,1,2]` next to `[1,2,3]`: the move and the cavity insertion
+give the same three new triangles, and the executable cavity check accepts the move -/
+theorem ex_consist_k1_2d :
+    flipGuard 2 [[0, 1, 2], [1, 2, 3]] [0, 1, 2] [9] = true ∧
+    flipCells [[0, 1, 2], [1, 2, 3]] [0, 1, 2] [9] = [[1, 2, 3], [1, 2, 9], [0, 2, 9], [0, 1, 9]] ∧
+    cavityInsert [[0, 1, 2], [1, 2, 3]] [[0, 1, 2]] 9 =
+      [[1, 2, 3], [1, 2, 9], [0, 2, 9], [0, 1, 9]] ∧
+    cavityBoundary [[0, 1, 2]] = [[1, 2], [0, 2], [0, 1]] ∧
+    cavityStepProblem [[0, 1, 2], [1, 2, 3]] (flipCells [[0, 1, 2], [1, 2, 3]] [0, 1, 2] [9]) 9
+      = none := by
+  decide
+
+/-- the same with the removed face given unsorted: same cells, other order -/
+theorem ex_consist_k1_2d_unsorted :
+    flipCells [[0, 1, 2], [1, 2, 3]] [2, 0, 1] [9] = [[1, 2, 3], [0, 1, 9], [1, 2, 9], [0, 2, 9]] ∧
+    cavityInsert [[0, 1, 2], [1, 2, 3]] [sortNat [2, 0, 1]] 9 =
+      [[1, 2, 3], [1, 2, 9], [0, 2, 9], [0, 1, 9]] := by
+  decide
+
+/-- 2-D, the inverse: `9` removed again; the move and the star removal give the same cells, and the
+executable star-removal check accepts the move -/
+theorem ex_consist_k1_inverse_2d :
+    flipGuard 2 [[1, 2, 3], [1, 2, 9], [0, 2, 9], [0, 1, 9]] [9] [0, 1, 2] = true ∧
+    (∀ c ∈ [[1, 2, 3], [1, 2, 9], [0, 2, 9], [0, 1, 9]], 9 ∈ c → c ∈ flipOld [9] [0, 1, 2]) ∧
+    flipCells [[1, 2, 3], [1, 2, 9], [0, 2, 9], [0, 1, 9]] [9] [0, 1, 2] = [[1, 2, 3], [0, 1, 2]] ∧
+    starFill [[1, 2, 3], [1, 2, 9], [0, 2, 9], [0, 1, 9]] 9 [sortNat [0, 1, 2]] =
+      [[1, 2, 3], [0, 1, 2]] ∧
+    starRemovalProblem [[1, 2, 3], [1, 2, 9], [0, 2, 9], [0, 1, 9]]
+      (flipCells [[1, 2, 3], [1, 2, 9], [0, 2, 9], [0, 1, 9]] [9] [0, 1, 2]) 9 = none := by
+  decide
+
+/-- 3-D, k = 1 and back: `7` inserted into `[0,1,2,3]` next to `[1,2,3,4]` -/
+theorem ex_consist_k1_3d :
+    flipGuard 3 [[0, 1, 2, 3], [1, 2, 3, 4]] [0, 1, 2, 3] [7] = true ∧
+    flipCells [[0, 1, 2, 3], [1, 2, 3, 4]] [0, 1, 2, 3] [7] =
+      cavityInsert [[0, 1, 2, 3], [1, 2, 3, 4]] [[0, 1, 2, 3]] 7 ∧
+    flipCells (flipCells [[0, 1, 2, 3], [1, 2, 3, 4]] [0, 1, 2, 3] [7]) [7] [0, 1, 2, 3] =
+      starFill (cavityInsert [[0, 1, 2, 3], [1, 2, 3, 4]] [[0, 1, 2, 3]] 7) 7 [[0, 1, 2, 3]] ∧
+    starFill (cavityInsert [[0, 1, 2, 3], [1, 2, 3, 4]] [[0, 1, 2, 3]] 7) 7 [[0, 1, 2, 3]] =
+      [[1, 2, 3, 4], [0, 1, 2, 3]] := by
+  decide
+
+/-- the 2-2 flip of `ex2d_cells`: the two removed triangles and the two created triangles have the
+same four boundary edges -/
+theorem ex_consist_22_boundary :
+    cavityBoundary (flipOld [1, 2] [0, 3]) = [[2, 3], [1, 3], [0, 2], [0, 1]] ∧
+    cavityBoundary (flipNew [1, 2] [0, 3]) = [[2, 3], [0, 2], [1, 3], [0, 1]] ∧
+    (∀ f ∈ [[0, 1], [0, 2], [1, 3], [2, 3]],
+      f ∈ cavityBoundary (flipOld [1, 2] [0, 3]) ∧ f ∈ cavityBoundary (flipNew [1, 2] [0, 3])) ∧
+    [1, 2] ∉ cavityBoundary (flipOld [1, 2] [0, 3]) ∧
+    [0, 3] ∉ cavityBoundary (flipNew [1, 2] [0, 3]) := by
+  decide
+
+/-- the 3-D 2→3 flip of `ex3d_23`: both regions are bounded by the same six triangles -/
+theorem ex_consist_23_boundary :
+    cavityBoundary (flipOld [1, 2, 3] [0, 4]) =
+      [[2, 3, 4], [1, 3, 4], [1, 2, 4], [0, 2, 3], [0, 1, 3], [0, 1, 2]] ∧
+    cavityBoundary (flipNew [1, 2, 3] [0, 4]) =
+      [[2, 3, 4], [0, 2, 3], [1, 3, 4], [0, 1, 3], [1, 2, 4], [0, 1, 2]] := by
+  decide
 
 end DM.C07
